@@ -179,6 +179,8 @@ def bind(chk: Check, tier: str, seed: int):
     db, raw = load_db(wd)
     LOOKUPS.clear()
     SWEPT.clear()
+    routes.HELD.clear()
+    routes.CHANGED_LATER.clear()
     LOOKUPS.update(db["lookups"])
     raw_by_id = {p["Id"]: p for p in raw["PGNs"]}
     rng = random.Random(seed)
@@ -257,6 +259,10 @@ def bind(chk: Check, tier: str, seed: int):
                 ret4, e4, err4 = encode(enc, m4)
                 recs.append({"id": d["id"], "ret": ret4, "e": e4, "base": [], "changed": 0, "req": req, "err": err4})
                 meta.append((d["id"], f["id"], "removed/exchanged"))
+    # packets handed out earlier are the caller's: a later encode on the same encoder must not alter them
+    for c in routes.CHANGED_LATER:
+        chk.violation(f"encode.result-changed-later/{c['route']}",
+                      f"packets returned for {c['label']} via {c['route']} read {c['now'][:2]} after later encodes; they were {c['then'][:2]} when returned", c)
     chk.gate(base_ok >= (40 if tier == "selftest" else 200), f"only {base_ok} definitions encode their base request")
     n_enc = sum(1 for r in recs if r["ret"] == "enc")
     chk.gate(n_enc > len(recs) // 4, f"only {n_enc} of {len(recs)} requests were encoded")
